@@ -101,8 +101,6 @@ def closeStep (w : List String) (impl : String) : StepOut := Id.run do
       if v ≠ cause then
         if n.startsWith "rcvdgram" && v == "nil" && n ≠ s!"rcvdgram{qd}" then
           pure ()   -- a datagram received before the close is still delivered
-        else if n == "senddgram" && v == "nil" then
-          fails := fails ++ [("all_same_cause", "senddatagram_after_close_accepted", s!"later {r}: SendDatagram after the close returned nil")]
         else
           fails := fails ++ [("all_same_cause", "-", s!"later {r} but the cause is {cause}")]
     -- the cause handed out is the recorded one unless the code maps it (non-immediate unknown error → INTERNAL_ERROR)
